@@ -105,11 +105,11 @@ def specOp (t : STable) : BatchOp → Except SErr STable
         uniques := t.uniques.filter keep,
         checks := t.checks.filter (fun c => !c.mentions.contains cur),
         fks := t.fks.filter keep,
-        indexes := t.indexes.filter (fun i => !i.cols.contains cur),
+        indexes := t.indexes.filter (fun i => !i.cols.contains cur && !i.whereMentions.contains cur),
         implicitlyGone := t.implicitlyGone ++
           ((t.uniques ++ t.fks).filter (fun c => c.cols.contains cur)).filterMap (·.name) ++
           (t.checks.filter (fun c => c.mentions.contains cur)).filterMap (·.name) ++
-          (t.indexes.filter (fun i => i.cols.contains cur)).map (·.name),
+          (t.indexes.filter (fun i => i.cols.contains cur || i.whereMentions.contains cur)).map (·.name),
         precedes := t.precedes.filter (fun p => p.1 != cur && p.2 != cur) }
   | .alterColumn n newName newType nullable dflt =>
     match t.resolve n with
@@ -259,8 +259,8 @@ def schemaReasons (t : STable) (after : Schema) : List String :=
      some ("schema: named check constraint " ++ c.name.getD "" ++ " missing or changed"))) ++
   (t.fks.filterMap (fun c => if hasConst after.fks c then none else
      some ("schema: foreign key " ++ c.name.getD "(unnamed)" ++ " on " ++ toString c.cols ++ " missing or changed"))) ++
-  (t.indexes.filterMap (fun i => if after.indexes.any (fun x => x.name == i.name && x.cols == i.cols && x.unique == i.unique) then none
-     else some ("schema: index " ++ i.name ++ " missing or changed"))) ++
+  (t.indexes.filterMap (fun i => if after.indexes.any (fun x => x.name == i.name && x.cols == i.cols && x.unique == i.unique && x.where_ == i.where_) then none
+     else some ("schema: index " ++ i.name ++ " missing or changed (columns / uniqueness / WHERE predicate)"))) ++
   (t.absentConsts.filterMap (fun n =>
      if (after.uniques ++ after.checks ++ after.fks ++ after.pk.toList).any (·.name == some n) then
        some ("schema: dropped constraint " ++ n ++ " still present") else none)) ++
@@ -295,8 +295,8 @@ def sameSchema (a b : Schema) : Bool :=
   a.uniques.all (hasConst b.uniques) && b.uniques.all (hasConst a.uniques) &&
   a.checks.all (hasConst b.checks) && b.checks.all (hasConst a.checks) &&
   a.fks.all (hasConst b.fks) && b.fks.all (hasConst a.fks) &&
-  a.indexes.all (fun i => b.indexes.any (fun x => x.name == i.name && x.cols == i.cols && x.unique == i.unique)) &&
-  b.indexes.all (fun i => a.indexes.any (fun x => x.name == i.name && x.cols == i.cols && x.unique == i.unique))
+  a.indexes.all (fun i => b.indexes.any (fun x => x.name == i.name && x.cols == i.cols && x.unique == i.unique && x.where_ == i.where_)) &&
+  b.indexes.all (fun i => a.indexes.any (fun x => x.name == i.name && x.cols == i.cols && x.unique == i.unique && x.where_ == i.where_))
 
 /-- identical definition and rows (row order free) -/
 def sameTbl (a b : Tbl) : Bool := sameSchema a.schema b.schema && a.rows.isPerm b.rows
